@@ -150,6 +150,20 @@ def run_scenario(defs, ops, watch):
         timers = sum(1 for _, lab in loop.armed_timers() if "handle_timeout" in lab)
         timers += sum(1 for h in loop._ready if not h._cancelled and getattr(h._callback, "__name__", "") == "handle_timeout")
         waiters = len(conn._read_exception_futures)
+        # "it fails with a timeout error exactly at its timeout": the instant a call turns into a timeout error is its start
+        # plus its own timeout (virtual time only moves in `time` ops, after the ready queue has been drained)
+        for i_, tk_ in b.tasks.items():
+            if i_ not in b.finished_at and tk_.done():
+                b.finished_at[i_] = loop.time()
+                if b.status(i_) == "err:timeout":
+                    want_t = b.t0[i_] + b.defs[i_][0] * TICK
+                    if abs(loop.time() - want_t) > 1e-6 and not any(k == "timeout-instant" for k, _ in bad):
+                        bad.append(("timeout-instant", f"call {i_} (timeout {b.defs[i_][0] * TICK} s, started at {b.t0[i_] - 0:.2f}) failed with a "
+                                                       f"timeout error at {loop.time():.2f}, i.e. after {loop.time() - b.t0[i_]:.2f} s"))
+            if i_ not in b.finished_at and not tk_.done() and loop.time() > b.t0[i_] + b.defs[i_][0] * TICK + 1e-6 \
+                    and not any(k == "timeout-missed" for k, _ in bad):
+                bad.append(("timeout-missed", f"call {i_} (timeout {b.defs[i_][0] * TICK} s) is still waiting {loop.time() - b.t0[i_]:.2f} s "
+                                              "after its request"))
         if (timers > pending or waiters > pending) and not any(k == "leak" for k, _ in bad):
             bad.append(("leak", f"after {op!r}: {pending} call(s) still waiting but request-timers={timers} waiters={waiters}: "
                                 f"a call that ended (result / timeout / cancellation / connection loss) left something behind"))
@@ -302,7 +316,7 @@ def gen(ck: Check):
         defs = {}
         for i in range(ncalls):
             types = rng.choice([[21], [21, 25], [25], [21, 25, 26], [25, 26]])
-            defs[i] = (rng.choice([2, 4, 4, 8]), rng.choice(PREDS_ACC), rng.choice(PREDS_STOP), types)
+            defs[i] = (rng.choice([2, 4, 4, 8, 8, 1, 120, 1300]), rng.choice(PREDS_ACC), rng.choice(PREDS_STOP), types)   # 0.25 s … 325 s
         ops = []
         pending_calls = list(range(ncalls))
         L = rng.randrange(6, 30)
